@@ -116,13 +116,21 @@ def cli_glue_ob(prog, res, oid, mod, tool, in_param, out_param, in_mode, out_mod
             return [definite(f'{tool} is called {len(calls)} times by cli_run')]
         b, extra = calls[0]
 
+        NOT_FOLLOWED = object()
+
         def arg(name):
             if name in b:
                 return it.resolve(b[name])
             if isinstance(extra, DictV) and name in extra.items:
                 return it.resolve(extra.items[name])
+            if extra is not None and not (isinstance(extra, DictV) and not extra.open and not extra.sym_stores
+                                          and getattr(extra, 'comp', None) is None and extra.default is None):
+                return NOT_FOLLOWED      # options travel in a dictionary whose entries are not all known (a comprehension ...)
             return None
         fails = []
+        for name in [in_param, out_param, 'no1014blocking', 'in_format', 'out_format'] + list(u['opts']):
+            if arg(name) is NOT_FOLLOWED:
+                return [soft(f'{name} reaches {tool} through a dictionary whose entries are not individually known')]
         opens = {e.data['file']: e for e in p.evs('open')}
         for role, name, fname, mode_ in (('input', in_param, u['inn'], in_mode), ('output', out_param, u['outn'], out_mode)):
             f = arg(name)
@@ -154,3 +162,92 @@ def cli_glue_ob(prog, res, oid, mod, tool, in_param, out_param, in_mode, out_mod
                              f'chosen on the command line' + ('; --no1014blocking makes both formats vbs' if formats_switch else ''),
                         func_where(cfi), f"with open(kwargs['in_filename'], {in_mode!r}) ...: {tool}(...)", chk_c,
                         rule=f'{oid}.cli.{tool}', unknown_ok=benign_unknown)
+
+
+CLI_ERROR_TOOLS = (('cli.mci_ipm_to_csv', ('cli.mci_ipm_to_csv.mci_ipm_to_csv',), None),
+                   ('cli.mideu', ('cli.mideu.extract', 'cli.mideu.convert'), 'func'),
+                   ('cli.paramconv', ('cli.paramconv.mci_ipm_param_encode',), None))
+
+
+def cli_error_runs(prog, res, mod, tools, func_key):
+    """cli_run of a tool interpreted with the conversion function summarised as "returns, or raises the library data error":
+    -> Runs whose paths record the raised error (user['raised']) and what was handed to print_exception_details (user['reported'])"""
+    from ..signals import Raised
+    cfi = prog.func(f'{mod}.cli_run')
+    ecls = prog.cls('mciipm.MciIpmDataError')
+
+    def tool_summary(it, f, args, kwargs, node, self_obj):
+        it.user['tool_called'] = it.user.get('tool_called', 0) + 1
+        if it.choose(2, 'conversion succeeds / raises the library data error') == 1:
+            exc = it.instantiate_exc(ecls, [it.sym_str('message')], {'record_number': it.sym_int('k', 1, None),
+                                                                   'binary_context_data': it.sym_bytes('record', lo=1)}, node)
+            it.user['raised'] = exc
+            raise Raised(exc)
+        return ConstV(None)
+
+    def report_summary(it, f, args, kwargs, node, self_obj):
+        it.user.setdefault('reported', []).append(it.resolve(args[0]) if args else None)
+        return ConstV(None)
+    summ = {prog.func(t).short: tool_summary for t in tools if prog.has_func(t)}
+    if prog.has_func('cli.print_exception_details'):
+        summ[prog.func('cli.print_exception_details').short] = report_summary
+    for helper in ('cli.print_banner', 'cli.get_config', f'{mod}.print_check_details'):
+        if prog.has_func(helper):
+            def helper_summary(it, f, args, kwargs, node, self_obj, helper=helper):
+                return DictV(open_=True, desc='get_config()') if helper.endswith('get_config') else ConstV(None)
+            summ[prog.func(helper).short] = helper_summary
+    if prog.has_func('mciipm.ipm_info'):
+        summ[prog.func('mciipm.ipm_info').short] = lambda it, f, args, kwargs, node, self_obj: DictV(open_=True, desc='ipm_info()')
+
+    def entry(it):
+        kw = {'in_filename': it.sym_str('in_filename', lo=1), 'out_filename': it.sym_str('out_filename', lo=1),
+              'input': it.sym_str('input', lo=1), 'output': it.sym_str('output', lo=1), 'debug': ConstV(False),
+              'no1014blocking': SymV('no1014blocking', 'bool'), 'sourceformat': SymV('sourceformat', 'str', choices=('ebcdic', 'ascii')),
+              'loglevel': ConstV(None), 'config_file': ConstV(None)}
+        if func_key:
+            fis = [prog.func(t) for t in tools if prog.has_func(t)]
+            kw[func_key] = FuncV(fis[it.choose(len(fis), 'sub-command') or 0])
+        return it.call_function(cfi, [], kw)
+    return Runs(prog, entry, summaries=summ, res=res), cfi
+
+
+def cli_error_obs(prog, res, which):
+    """which='escape' (C07.b): the library data error raised by the conversion never leaves cli_run;
+    which='report' (C10.d): whenever it is caught, that very error object was handed to print_exception_details."""
+    from ..report import func_where, Ob, PROVED, REFUTED, UNDECIDED
+    from ..units import exc_key
+    out = []
+    base = prog.cls('CardutilError')
+    for mod, tools, func_key in CLI_ERROR_TOOLS:
+        if not prog.has_func(f'{mod}.cli_run'):
+            continue
+        runs, cfi = cli_error_runs(prog, res, mod, tools, func_key)
+        seen = {'raised': 0}
+
+        def chk(p, mode, which=which):
+            exc = p.interp.user.get('raised')
+            if exc is None:
+                return []
+            seen['raised'] += mode == 'inv'
+            if which == 'escape':
+                if p.outcome == 'raise' and getattr(p.value, 'cls', None) is not None and not isinstance(p.value.cls, type) \
+                        and (p.value.cls is base or p.value.cls.is_subclass_of(base)):
+                    return [definite('the library data error raised by the conversion leaves cli_run: the operator gets a traceback '
+                                     'instead of the report', getattr(p.value, 'raise_node', None), firm=True)]
+                return []
+            if p.outcome == 'return' and not any(r is exc for r in p.interp.user.get('reported', [])):
+                return [definite('the library data error of the conversion is caught but not handed to print_exception_details: the '
+                                 'operator never sees the record number', firm=True)]
+            return []
+        chk.no_return_ok = True
+        if which == 'escape':
+            ob = runs.judge('C07.b', f'{mod}.cli_run: the library data error of the conversion never leaves the tool entry point',
+                            func_where(cfi), 'except MciIpmDataError', chk, rule=f'C07.b.{mod}', unknown_ok=benign_unknown)
+        else:
+            ob = runs.judge('C10.d', f'{mod}.cli_run: a library data error that is caught is reported through print_exception_details(err)',
+                            func_where(cfi), 'except MciIpmDataError as err: print_exception_details(err)', chk, rule=f'C10.d.cli.{mod}',
+                            unknown_ok=benign_unknown)
+        if ob.verdict == PROVED and not seen['raised']:
+            ob.verdict, ob.detail = UNDECIDED, 'the conversion function is not called by cli_run on any explored path: nothing was judged'
+        out.append(ob)
+    return out
